@@ -28,7 +28,8 @@ func runScheduled(in input, withCard bool, t *tape.Tape) (o outcome, v *super.Vi
 	simrt.ResetChannels()
 	simrt.Sim = &simrt.Simulator{Spawn: sched.Spawn, Blocked: sched.Blocked, Event: sched.Unlocked}
 	simrt.YieldHook = sched.Yield
-	defer func() { simrt.Sim = nil; simrt.YieldHook = nil }()
+	simrt.BlockedHook, simrt.UnlockHook = sched.Blocked, sched.Unlocked
+	defer func() { simrt.Sim = nil; simrt.YieldHook = nil; simrt.BlockedHook, simrt.UnlockHook = nil, nil }()
 	strategy := t.Draw(3)
 	param := 1 + t.Draw(6)
 	pick := func(runnable []int, last int) int {
